@@ -236,6 +236,8 @@ class P_pdb(StructureParser):
                     Ua[1, 2] = Ua[2, 1] = Uij[5]
                 elif record == "SIGUIJ":
                     sigUij = [float(x) * 1.0e-4 for x in line[28:70].split()]
+                    if not hasattr(last_atom, "sigU"):
+                        last_atom.sigU = numpy.zeros((3, 3), dtype=float)
                     for i in range(3):
                         last_atom.sigU[i, i] = sigUij[i]
                     last_atom.sigU[0, 1] = last_atom.sigU[1, 0] = sigUij[3]
